@@ -45,7 +45,7 @@ func checkC01(c *core.Ctx, r *core.Report) {
 		"(5) BACKFILL — after a record's own columns are written, every other column of the open block receives exactly one backfill byte (the loop visits all columns, no path skips the append); " +
 		"(6) BLOCKRESET — per-block writer state is wholly reset between blocks: the column offset/length table (all entries, before the columns of the block are filled in), every column buffer, cursor and dictionary, the present-columns set and the block summary counters; " +
 		"(7) TSWIDTH — the timestamp block uses the width its type byte announces on both sides, and the type is chosen by the matching bound of the block's time span; " +
-		"(8) BOUND — a value length that is narrowed to the 16-bit TLV length field is bounded by a record-size gate on every ingest path that reaches it."
+		"(8) BOUND — a value length that is narrowed to the 16-bit TLV length field is bounded by a dominating comparison (a longer value is rejected, not truncated)."
 	r.NotCovered = "value equality of the round trip, alignment of record i across columns as an outcome, dictionary cut-over at the cardinality limit, block/segment boundary handling, JSON flattening semantics (names, escapes), number/string consolidation results, zstd and checksum layers (C18)"
 
 	tags := c01TagArms(c, r)
@@ -1353,7 +1353,18 @@ func c01BlockReset(c *core.Ctx, r *core.Report) {
 
 	// (a) every entry of bmiColOffLen is marked absent (Length = 0) by initBmh
 	okBmi := false
+	onAllPaths := func(fn *ssa.Function, l *core.Loop) bool {
+		for _, ret := range core.Returns(fn) {
+			if !l.Header.Dominates(ret.Block()) {
+				return false
+			}
+		}
+		return true
+	}
 	for _, l := range wholeLoops(initBmh, bmi) {
+		if !onAllPaths(initBmh, l) {
+			continue // a path returns without running the reset
+		}
 		for b := range l.Body {
 			for _, in := range b.Instrs {
 				st, ok := in.(*ssa.Store)
@@ -1386,7 +1397,7 @@ func c01BlockReset(c *core.Ctx, r *core.Report) {
 	}
 	r.Check(okBmi, "BLOCKRESET", "writer.SegStore.initBmh:every-entry-of-bmiColOffLen-marked-absent", c.Pos(initBmh.Pos()),
 		"Length = 0 is stored into every entry of the per-segment column offset/length table before a block is flushed",
-		"the reset of the column offset/length table does not cover every entry: a column that is absent from this block keeps the offset/length of the last block that had it, so the block's metadata points at another block's data and its records come back with values of other events")
+		"the reset of the column offset/length table does not cover every entry on every path: a column that is absent from this block keeps the offset/length of the last block that had it, so the block's metadata points at another block's data and its records come back with values of other events")
 
 	// (b) initBmh runs before the table is filled for the block
 	appendWip := c.Fn(pkgWriter, "SegStore.AppendWipToSegfile")
@@ -1439,6 +1450,9 @@ func c01BlockReset(c *core.Ctx, r *core.Report) {
 	deCountF, deMapF := c.Field(pkgWriter, "DeData.deCount"), c.Field(pkgWriter, "DeData.deMap")
 	got := map[string]bool{}
 	for _, l := range wholeLoops(reset, colWips) {
+		if !onAllPaths(reset, l) {
+			continue
+		}
 		for b := range l.Body {
 			for _, in := range b.Instrs {
 				switch x := in.(type) {
